@@ -578,14 +578,16 @@ def fault_leg(ck, exe, work, thorough):
         out, outcome, err = ip.run_ip(ipso, [exe], fdir, trace=trace, stdin="\n".join(script) + "\n")
         if outcome != "ok" or oracle_failure(out):
             raise vlib.Infra("fault leg: the scenario %r does not run cleanly without a fault (%s)" % (name, outcome))
-        ncalls = 0
+        # fault positions = the write / lseek / sync calls of the window (a failing READ that loads the write-back block is
+        # swallowed by ADFI_write_file: C14_read_error_swallowed_refuted, outside the property "write, seek or close")
+        ks = []
         if os.path.exists(trace):
             for l in open(trace):
                 t = l.split(" ")
-                if t and t[0] != "-" and t[0].isdigit():
-                    ncalls = max(ncalls, int(t[0]) + 1)
-        stat["scenarios"] += 1; stat["calls_per_window"][name] = ncalls
-        for k in range(ncalls):
+                if len(t) > 2 and t[0].isdigit() and t[2] in ("write", "pwrite", "lseek", "fsync", "fdatasync", "ftruncate"):
+                    ks.append(int(t[0]))
+        stat["scenarios"] += 1; stat["calls_per_window"][name] = len(ks)
+        for k in ks:
             for kind in (("eio", "enospc") if thorough else ("eio",)):
                 out, outcome, err = ip.run_ip(ipso, [exe], fdir, fault="%d:%s" % (k, kind), stdin="\n".join(script) + "\n")
                 stat["runs"] += 1
